@@ -349,6 +349,27 @@ CLAIMS["C18"]["text"] += (" Translator tie (harness/py2coq_dict.py, fail-closed)
                           "the C18 theorems - own keys, then the nearest ancestor defining the key; termination; missing parent; cycles - are about), with fuel entries + 2 never exhausted.")
 
 
+def _corr_tie():
+    import translated
+    return translated.corr_tie()
+
+
+def _corr_sweep_c12(seed, tier, cov):
+    import translated
+    return translated.corr_sweep_c12(seed, tier, cov)
+
+
+CLAIMS["C12"]["ties"] = (_corr_tie,)
+CLAIMS["C12"]["extra_checks"] = _corr_sweep_c12
+CLAIMS["C12"]["technique"] += " + source-to-Gallina translator tie for the correlation table (regenerated and re-proved every run)"
+CLAIMS["C12"]["text"] += (" Translator tie (harness/py2coq_corr.py over the pair-keyed dict of coq/theories/FundCorr.v): Fundamentals.set_correlation and remove_correlation are REGENERATED "
+                          "from /repo's source on every run and coq/translated/CorrC12Proofs.v is re-checked against the generated text: on a table in canonical form (no pair stored both "
+                          "ways round) a successful set_correlation(a, b, c) leaves the table canonical, makes BOTH (a, b) and (b, a) read c whichever way round the pair was named before, "
+                          "changes no other pair and moves the regeneration point to the given time; it is accepted for every -1 < c < 1 and a <> b and refused otherwise; "
+                          "remove_correlation removes the pair for both orders and raises KeyError when it is not there. A directed search drives the real methods with random scripts "
+                          "naming pairs both ways round.")
+
+
 def _index_tie():
     import translated
     return translated.index_tie()
